@@ -14,7 +14,7 @@ from pbt.core import Result, pf_tol, silence, exc_sig
 
 ID = "C20"
 LEVEL = "exploration"
-EXAMPLES = {"quick": 640, "thorough": 12000}
+EXAMPLES = {"quick": 480, "thorough": 9600}
 DEADLINE_S = {"quick": 240, "thorough": 3000}
 SHRINK_S = {"quick": 25, "thorough": 90}
 RULE = ("Hypothesis draws a network recipe (netgen.grid, <=9 buses, optional non-contiguous / unsorted element indices), "
@@ -64,12 +64,13 @@ LIMIT_CELLS = [("gen", "max_p_mw"), ("gen", "min_p_mw"), ("gen", "max_q_mvar"), 
                ("ext_grid", "max_q_mvar"), ("ext_grid", "min_q_mvar"), ("bus", "max_vm_pu"), ("bus", "min_vm_pu"),
                ("line", "max_loading_percent"), ("trafo", "max_loading_percent"), ("trafo3w", "max_loading_percent"),
                ("storage", "max_e_mwh"), ("storage", "min_e_mwh"), ("dcline", "max_p_mw"), ("dcline", "max_q_from_mvar")]
-SPECIALS = ["nan", "inf", "-inf", 1e308, -1e308, 1.7976931348623157e308, 1e15, 123456789.123456789]
+DBL_MAX = 1.7976931348623157e308     # "no limit" sentinel (numpy.finfo(float).max)
+SPECIALS = ["nan", "inf", "-inf", 1e308, -1e308, DBL_MAX, 1e15, 123456789.123456789]
 # electrical parameters for which a tiny positive value is a valid input
 TINY_CELLS = [("line", "g_us_per_km"), ("line", "r_ohm_per_km"), ("line", "c_nf_per_km"), ("trafo", "pfe_kw"),
               ("impedance", "rft_pu"), ("impedance", "rtf_pu"), ("load", "p_mw"), ("load", "q_mvar"), ("sgen", "p_mw"),
               ("shunt", "p_mw"), ("ward", "pz_mw"), ("xward", "r_ohm"), ("trafo", "vkr_percent"), ("line", "length_km")]
-TINIES = [1e-9, 1e-12, 1e-15, 1e-16, 1e-18, 3.3e-17, 1e-30, 2.2250738585072014e-308, 1.2345678901234567e-10]
+TINIES = [1e-9, 1e-12, 1e-15, 1e-16, 1e-18, 3.3e-17, 1e-30, 1e-300, 1.2345678901234567e-10]
 # parameters that take any finite value of ordinary size: 17 significant digits must survive
 DIGIT_CELLS = [("load", "p_mw"), ("load", "q_mvar"), ("sgen", "p_mw"), ("sgen", "q_mvar"), ("line", "length_km"),
                ("line", "x_ohm_per_km"), ("gen", "vm_pu"), ("ext_grid", "vm_pu"), ("trafo", "vk_percent"),
@@ -86,34 +87,63 @@ PF_OPTION_SETS = [
 ]
 
 
-def _text(fmt_safe):
-    if fmt_safe:
+NA_STRINGS = {"", "#N/A", "#N/A N/A", "#NA", "-1.#IND", "-1.#QNAN", "-NaN", "-nan", "1.#IND", "1.#QNAN", "<NA>", "N/A", "NA",
+              "NULL", "NaN", "None", "n/a", "nan", "null"}
+
+
+def _plain(s):
+    """text that a spreadsheet cell keeps as text: pandas.read_excel (used by from_excel, documented as lossy) turns
+    NA-like strings into NaN, all-numeric-looking columns into numbers, 'true'/'false' into bool and xlsxwriter
+    turns '=...' into a formula"""
+    if s in NA_STRINGS or s != s.strip() or s.startswith("=") or s.lower() in ("true", "false", "inf", "-inf", "infinity", "-infinity"):
+        return False
+    try:
+        float(s.replace(",", "."))
+        return False
+    except ValueError:
+        pass
+    try:
+        int(s, 0)
+        return False
+    except ValueError:
+        pass
+    return len(s) < 200
+
+
+def _text(plain):
+    if plain:
         alpha = st.characters(exclude_categories=["Cs", "Cc"])
-    else:
-        alpha = st.characters(exclude_categories=["Cs"])
+        return st.one_of(st.sampled_from([a for a in AWKWARD if _plain(a) and not any(ord(c) < 32 for c in a)]),
+                         st.text(alpha, min_size=1, max_size=10).filter(_plain))
+    alpha = st.characters(exclude_categories=["Cs"])
     return st.one_of(st.sampled_from(AWKWARD), st.sampled_from(AWKWARD), st.text(alpha, max_size=10))
 
 
 def _finite(lo, hi):
-    return st.floats(lo, hi, allow_nan=False, allow_infinity=False, allow_subnormal=False)
+    # magnitudes near the smallest normal double are mapped to 0 (no power-system meaning, see DESIGN.md C20: subnormals)
+    return st.floats(lo, hi, allow_nan=False, allow_infinity=False, allow_subnormal=False).map(
+        lambda x: 0.0 if abs(x) < 1e-300 else x)
 
 
 @st.composite
-def _custom_col(draw, scalar_only):
+def _custom_col(draw, fam):
+    scalar_only = fam in ("excel", "sqlite")
     kinds = ["bool", "int", "float", "Int64", "string", "obj_str", "boolean"]
     if not scalar_only:
         kinds += ["category", "list", "dict", "datetime", "category", "list", "dict", "datetime", "mixed"]
     kind = draw(st.sampled_from(kinds))
     n = draw(st.integers(1, 4))
-    txt = _text(scalar_only)
+    txt = _text(fam == "excel")
+    specials = [v for v in SPECIALS if not (fam == "excel" and v == DBL_MAX)]
+    big = 2 ** 53 if fam == "excel" else 2 ** 62      # a spreadsheet number is a double
     if kind == "bool":
         vals = draw(st.lists(st.booleans(), min_size=n, max_size=n))
     elif kind == "int":
-        vals = draw(st.lists(st.integers(-2 ** 62, 2 ** 62) | st.integers(-5, 5), min_size=n, max_size=n))
+        vals = draw(st.lists(st.integers(-big, big) | st.integers(-5, 5), min_size=n, max_size=n))
     elif kind == "float":
-        vals = draw(st.lists(st.sampled_from(SPECIALS + TINIES) | _finite(-1e6, 1e6), min_size=n, max_size=n))
+        vals = draw(st.lists(st.sampled_from(specials + TINIES) | _finite(-1e6, 1e6), min_size=n, max_size=n))
     elif kind == "Int64":
-        vals = draw(st.lists(st.none() | st.integers(-2 ** 53, 2 ** 53) | st.integers(-2 ** 62, 2 ** 62), min_size=n, max_size=n))
+        vals = draw(st.lists(st.none() | st.integers(-2 ** 53, 2 ** 53) | st.integers(-big, big), min_size=n, max_size=n))
     elif kind == "boolean":
         vals = draw(st.lists(st.none() | st.booleans(), min_size=n, max_size=n))
     elif kind in ("string", "obj_str"):
@@ -146,6 +176,10 @@ def _deco(draw, fam):
     menu = {"name": 6, "netname": 1, "limit": 5, "tiny": 2, "digits": 3, "col": 7, "geo": 3, "std_type": 3,
             "const_ctrl": 3, "tap_ctrl": 2, "tdi": 2, "characteristic": 1, "group": 3, "measurement": 2, "poly_cost": 2,
             "pwl_cost": 2, "pf_options": 2, "table": 1}
+    if lossy:
+        # known shape: list-valued columns (group.element_index, pwl_cost.points) are not written as JSON text, to_sqlite
+        # raises and hides everything else -> kept as a minority
+        menu.update(group=1, pwl_cost=1)
     op = draw(netgen.weighted(menu))
     row = st.integers(0, 40)
     if op == "name":
@@ -154,7 +188,7 @@ def _deco(draw, fam):
         return {"op": "netname", "v": draw(txt)}
     if op == "limit":
         t, c = draw(st.sampled_from(LIMIT_CELLS))
-        return {"op": "cell", "what": "limit", "tab": t, "col": c, "row": draw(row), "v": draw(st.sampled_from(SPECIALS))}
+        return {"op": "cell", "what": "limit", "tab": t, "col": c, "row": draw(row), "v": draw(st.sampled_from([v for v in SPECIALS if not (fam == "excel" and v == DBL_MAX)]))}
     if op == "tiny":
         t, c = draw(st.sampled_from(TINY_CELLS))
         return {"op": "cell", "what": "tiny", "tab": t, "col": c, "row": draw(row), "v": draw(st.sampled_from(TINIES))}
@@ -163,7 +197,7 @@ def _deco(draw, fam):
         # factor applied to the generated (valid) value: keeps the value in its valid range and fills the mantissa
         return {"op": "cell", "what": "digits", "tab": t, "col": c, "row": draw(row), "v": draw(_finite(0.9, 1.1))}
     if op == "col":
-        return draw(_custom_col(lossy))
+        return draw(_custom_col(fam))
     if op == "geo":
         pt = st.tuples(_finite(-180, 180), _finite(-90, 90)).map(list) | \
             st.tuples(st.integers(-10 ** 6, 10 ** 6), st.integers(-10 ** 6, 10 ** 6)).map(list)
@@ -200,7 +234,7 @@ def _deco(draw, fam):
                 "colkind": draw(st.sampled_from(["int", "str", "str"])), "data": data,
                 "scale_factor": draw(st.sampled_from([1.0, 1.0, 0.5, 1 / 3])), "recycle": draw(st.sampled_from([True, True, False])),
                 "single": draw(st.booleans()), "order": draw(st.sampled_from([-1, 0, 2])), "in_service": draw(st.sampled_from([True, True, False])),
-                "step_start": draw(st.sampled_from([0, 0, 5]))}
+                "step_start": draw(st.sampled_from([0, 0, 5])), "np_index": draw(st.booleans())}
     if op == "tap_ctrl":
         return {"op": "tap_ctrl", "kind": draw(st.sampled_from(["cont", "disc"])), "row": draw(row),
                 "vm": draw(netgen.q(0.97, 1.03, 3)), "side": draw(st.sampled_from(["lv", "hv"])),
@@ -257,7 +291,8 @@ def _case(draw, tier):
             els = [e for e in recipe["el"] if e["t"] == t]
             if not els:
                 continue
-            labs = draw(st.lists(st.integers(0, 60) | st.integers(0, 2 ** 40), min_size=len(els), max_size=len(els), unique=True))
+            # labels stay small: pandapower allocates lookup arrays of size max(index)+1 (index 2**40 -> tens of GB)
+            labs = draw(st.lists(st.integers(0, 60) | st.integers(0, 5000), min_size=len(els), max_size=len(els), unique=True))
             if draw(st.booleans()):
                 labs = sorted(labs)
             for e, lab in zip(els, labs):
@@ -389,7 +424,9 @@ def decorate(net, deco, res):
                 continue
             idx = []
             for r in d["rows"]:
-                i = int(_pick(t, r))
+                i = _pick(t, r)           # numpy.int64, as returned by create_*
+                if not d.get("np_index"):
+                    i = int(i)
                 if i not in idx:
                     idx.append(i)
             cols = list(range(len(idx))) if d["colkind"] == "int" else ["prof_%d" % k for k in range(len(idx))]
@@ -579,6 +616,45 @@ def roundtrip(net, case, tmp):
     raise KeyError(fmt)
 
 
+def _excel_hidden_error(fn, sig, err):
+    import pandas as pd
+    from pandapower.io_utils import from_dict_of_dfs
+    try:
+        with silence():
+            from_dict_of_dfs(pd.read_excel(fn, sheet_name=None, index_col=0, engine="openpyxl"))
+    except Exception as e2:
+        return exc_sig(e2), repr(e2)[:300]
+    return sig, err
+
+
+def _exc_feature(net, fam, stage):
+    """facts about the input that name the root cause of a save/load exception"""
+    import numpy as np
+    import pandas as pd
+    big = False
+    for k in cc.public_keys(net):
+        t = net[k]
+        if isinstance(t, pd.DataFrame) and len(t):
+            for c in t.columns:
+                if t[c].dtype.kind == "f":
+                    v = np.abs(t[c].values[np.isfinite(t[c].values)])
+                    if len(v) and v.max() > 1.797693134862315e308:
+                        big = True
+    if big and fam == "json" and stage == "load":
+        return "/dbl-max"
+    if fam in ("excel", "sqlite") and stage == "save":
+        cols = []
+        for k in cc.public_keys(net):
+            t = net[k]
+            if isinstance(t, pd.DataFrame) and len(t) and not k.startswith("res_"):
+                for c in t.columns:
+                    if c not in ("object", "recycle") and t[c].dtype == object and any(isinstance(v, (list, dict)) for v in t[c].values):
+                        cols.append("%s.%s" % (k, c))
+        if cols:
+            return "/list-cells"
+    return ""
+
+
 def _loc_class(where):
     head = where.split(".")[0].split("[")[0]
     if head in ("controller", "characteristic") and ".object" in where:
@@ -598,6 +674,38 @@ def _loc_class(where):
 
 def _features(done):
     return sorted({x.split(":")[0] for x in done})
+
+
+def _input_loss(orig, loaded):
+    """why do results differ: largest relative change of a float input cell"""
+    import numpy as np
+    import pandas as pd
+    worst = 0.0
+    small = False
+    for k in cc.public_keys(orig):
+        a = orig[k]
+        if not isinstance(a, pd.DataFrame) or k.startswith("res_") or not len(a) or k not in loaded:
+            continue
+        b = loaded[k]
+        for c in a.columns:
+            if a[c].dtype.kind != "f" or c not in b.columns or len(b) != len(a):
+                continue
+            try:
+                x = a[c].values.astype(float)
+                y = b[c].reindex(a.index).values.astype(float)
+            except (TypeError, ValueError):
+                continue
+            if (np.isinf(x) & ~(x == y)).any():
+                return "inf-lost"
+            with np.errstate(all="ignore"):
+                rel = np.abs(x - y) / np.abs(x)
+            rel = rel[np.isfinite(rel)]
+            if len(rel) and rel.max() > worst:
+                worst = float(rel.max())
+                small = bool(np.abs(x[np.isfinite(x) & (x != y)]).min() < 1e-3) if (x != y).any() else False
+    if worst > 1e-13:
+        return "small-float-truncated" if small else "float-changed"
+    return "inputs-equal"
 
 
 def run_pf(net, sn, has_user_opts):
@@ -645,7 +753,7 @@ def check(case):
             res.label("results-run-failed")
     orig = copy.deepcopy(net)
 
-    tmp = tempfile.mkdtemp(prefix="c20_")
+    tmp = tempfile.mkdtemp(prefix="c20_", dir="/dev/shm" if os.access("/dev/shm", os.W_OK) else None)
     try:
         stage = "save"
         try:
@@ -653,7 +761,15 @@ def check(case):
                 stage, loader = roundtrip(net, case, tmp)
                 loaded = loader()
         except Exception as e:
-            res.fail("%s/exc-%s/%s" % (fam, stage, exc_sig(e)), error=repr(e)[:300], features=_features(done), fmt=fmt)
+            sig = exc_sig(e)
+            err = repr(e)[:300]
+            if fam == "excel" and stage == "load" and sig.endswith("_from_excel_old"):
+                # from_excel hides the real error behind a bare except and falls back to the legacy reader
+                sig, err = _excel_hidden_error(os.path.join(tmp, "net.xlsx"), sig, err)
+            feat = _exc_feature(orig, fam, stage)
+            if feat == "/dbl-max":
+                sig = type(e).__name__ if fam != "json" else "ValueError"   # from_json re-raises the ValueError as UserWarning
+            res.fail("%s/exc-%s/%s%s" % (fam, stage, sig, feat), error=err, features=_features(done), fmt=fmt)
             res.nontrivial = bool(done)
             return res
     finally:
@@ -675,7 +791,10 @@ def check(case):
         compare_lossy(orig, loaded, case, diffs)
     seen = set()
     for d in diffs:
-        sig = "%s/%s/%s@%s" % (fam, d["kind"], d["cls"], _loc_class(d["where"]))
+        loc = _loc_class(d["where"])
+        if mode == "lossy" and d["cls"] == "list->str":
+            loc = "list-column"       # pwl_cost.points, group.element_index: one root cause
+        sig = "%s/%s/%s@%s" % (fam, d["kind"], d["cls"], loc)
         if sig in seen:
             continue
         seen.add(sig)
@@ -692,7 +811,7 @@ def check(case):
             res.label("pf-compared")
             dd = oracles.compare_results(a, loaded, atol=1e-9, rtol=1e-9, angle_tol=1e-9)
             if dd:
-                res.fail("%s/pf/results-differ" % fam, diffs=dd[:5], features=_features(done))
+                res.fail("%s/pf/results-differ/%s" % (fam, _input_loss(orig, loaded)), diffs=dd[:5], features=_features(done))
         else:
             res.label("pf-" + oa.split(":")[0])
     res.nontrivial = bool(done)
@@ -718,11 +837,13 @@ def compare_lossy(orig, loaded, case, diffs):
                 continue
             a = v
             if fam == "excel":
-                # an empty string is an empty cell
+                # an empty string is an empty cell; NA-like text ("nan", "None", ...) is read as a missing value by
+                # pandas.read_excel (documented: "to_excel uses pandas to_excel which is a lossy conversion")
                 a = v.copy()
                 for c in a.columns:
                     if a[c].dtype == object or str(a[c].dtype).startswith("string"):
-                        a[c] = a[c].astype(object).where(a[c].astype(object).map(lambda x: x != ""), None)
+                        a[c] = a[c].astype(object).where(a[c].astype(object).map(
+                            lambda x: not (isinstance(x, str) and x in NA_STRINGS)), None)
             cc.cmp_frame(a, loaded[k], k, "lossy", diffs, skip_null_columns=True)
         elif k == "std_types":
             lt = loaded.get("std_types", {})
@@ -737,7 +858,14 @@ def compare_lossy(orig, loaded, case, diffs):
                         if pk not in lt[el][name]:
                             diffs.add("keys", "std_types.%s[%r]" % (el, name), "std-type-parameter-lost", pk, None)
                             continue
-                        cc.cmp_value(pv, lt[el][name][pk], "std_types.%s[%r][%r]" % (el, name, pk), "lossy", diffs)
+                        lv = lt[el][name][pk]
+                        if isinstance(lv, str) and not isinstance(pv, str):
+                            # dtype of std-type parameters is not preserved by SQL (documented xfail): compare by value
+                            try:
+                                lv = float(lv)
+                            except ValueError:
+                                pass
+                        cc.cmp_value(pv, lv, "std_types.%s[%r][%r]" % (el, name, pk), "lossy", diffs)
         elif k == "user_pf_options":
             if len(v):
                 cc.cmp_value(v, loaded.get("user_pf_options"), "user_pf_options", "lossy", diffs)
